@@ -100,7 +100,7 @@ CHECKS = {
     },
     "C02": {
         "level": "exploration",
-        "parts": [{"gen": "C02", "quick": 4200, "thorough": 84000}, {"gen": "C02owner", "quick": 120, "thorough": 1200}],
+        "parts": [{"gen": "C02", "quick": 4200, "thorough": 84000}, {"gen": "C02owner", "quick": 120, "thorough": 1200}, {"gen": "C02v6", "quick": 54, "thorough": 540}],
         "rule": "one run = real client (and, for multi-user Shadowsocks 2022, a second real client under another user key) + real server; the configuration cell cycles over the UDP-capable README rows "
                 "(Shadowsocks over udp x 7 ciphers x with/without users, VMess over tcp/tls/ws/wss, Trojan over tls/wss); 1-4 local applications send uniquely numbered SOCKS5-UDP datagrams (sizes 0-8, small, 1472/1473, "
                 "multi-KiB, largest that fits and one above) to 1-4 scripted targets addressed by IPv4 or by name, which answer 0-2 times; idle gaps of 2 s ... 620 s jump the clock past the 300 s / 600 s TTLs; "
@@ -108,7 +108,8 @@ CHECKS = {
                 "the application that owns the binding, as one datagram labelled with the target; lossy links - whole-or-nothing and at most once (legacy ciphers: at most as often as the network copied); "
                 "never to another application, target or client; UDP sockets still bound afterwards. non-trivial = at least one datagram reached a target; distinct = (plan, poll order).",
         "real": REAL_SYSTEM, "stub": STUB_SYSTEM, "assumptions": ASSUME_SYSTEM + ["an over-size datagram may be dropped whole", "VMess/Trojan replies may be labelled with the requested name instead of the literal address (their wire formats do not carry the source)",
-                                        "generator C02owner (owner part, in-path attacker): after a session's datagram has been relayed, an unchanged copy of it arrives from an address of the attacker's own (refused as a duplicate for 2022 ciphers); the target then speaks again on its own and the application sends again - every datagram of the session must still be sent to the socket that owns it and reach the owning application, none to the replayer's address"],
+                                        "generator C02owner (owner part, in-path attacker): after a session's datagram has been relayed, an unchanged copy of it arrives from an address of the attacker's own (refused as a duplicate for 2022 ciphers); the target then speaks again on its own and the application sends again - every datagram of the session must still be sent to the socket that owns it and reach the owning application, none to the replayer's address",
+                                        "generator C02v6 ('all target address kinds'): datagrams for an IPv6 literal, an echoing target bound to that address, every UDP-capable cell; the simulated datagram socket refuses a destination of the other address family (EAFNOSUPPORT) as a kernel does"],
     },
     "C11": {
         "level": "model_checking",
@@ -138,13 +139,14 @@ CHECKS = {
     },
     "C14": {
         "level": "exploration",
-        "parts": [{"gen": "C14", "quick": 16400, "thorough": 65600, "exhaustive": True}],
+        "parts": [{"gen": "C14", "quick": 16400, "thorough": 65600, "exhaustive": True}, {"gen": "C14udp", "quick": 1028, "thorough": 8224, "exhaustive": True}],
         "rule": "the seed is the case index: name length = seed mod 1025 (every length 0..=1024), protocol family = (seed div 1025) mod 4 over {Shadowsocks legacy, Shadowsocks 2022, VMess, Trojan}; the name's bytes, the port, the payload and the "
                 "local handshake (SOCKS5 domain with host-name characters or arbitrary bytes for lengths <= 255, HTTP CONNECT or absolute-URI otherwise) are drawn from the seed. The client<->server link runs through the transparent "
                 "man-in-the-middle node, which counts the bytes the client puts on the wire. Oracle: either the server resolves exactly that name, dials exactly that port and the target receives exactly the payload, or the client sends nothing at all; "
                 "well-formed names of 1..255 bytes must be delivered, empty and longer ones refused. Each run also round-trips the same name through socks5::address::{encode,decode} and vmess::address::{write,read}_address_port "
                 "with a trailing payload. Lengths are enumerated exhaustively, contents are sampled; no schedule or fault matters for this property - the simulator contributes the observation points.",
-        "real": REAL_SYSTEM, "stub": STUB_SYSTEM + ["transparent man-in-the-middle node (byte counter)"], "assumptions": ASSUME_SYSTEM + ["IPv4 / IPv6 literals are covered by C01 and C13"],
+        "real": REAL_SYSTEM, "stub": STUB_SYSTEM + ["transparent man-in-the-middle node (byte counter)"], "assumptions": ASSUME_SYSTEM + ["IPv4 / IPv6 literals are covered by C01 and C13",
+            "generator C14udp (datagram part): the address that travels with every datagram - SOCKS5-UDP locally, then the Shadowsocks datagram layouts (legacy, 2022) or the datagram frames inside a VMess / Trojan stream; the seed is the case index: name length 0..=255 (what SOCKS5-UDP can carry) or an IPv4 literal x 4 protocol families, contents as in the stream part; oracle: the server resolves exactly that name and sends exactly the payloads to exactly (address, port), a socket on the neighbouring port receives nothing - or nothing is relayed at all; well-formed names must be delivered, the empty name refused"],
     },
     "C03": {
         "level": "exploration",
